@@ -301,7 +301,12 @@ class ExprMixin:
         v = None
         for e in node.values:
             v = self.eval(e)
+            a0 = getattr(self, 'assumed', 0)
             t = self.truth(v, node)
+            if self.nofork and getattr(self, 'assumed', 0) != a0:
+                # undecidable without forking: the value is one of the operands
+                rest = [self.eval(x) for x in node.values[node.values.index(e) + 1:]]
+                return SymV(self.fresh('boolop'), 'any', origin=('boolop', type(node.op).__name__, [v] + rest))
             if is_and and not t:
                 return v
             if not is_and and t:
